@@ -418,10 +418,14 @@ class ScenarioGen:
                     elif y < 0.27 and text not in ("", "eyecite"):
                         op = {"op": "H1", "text": "", "markup": tg.markup(text),
                               "clean": g.choice([["html", "all_whitespace"], ["html"],
-                                                 ["html", "inline_whitespace"]])}
+                                                 ["html", "inline_whitespace"],
+                                                 ["html", "@rep:,:;", "all_whitespace"],
+                                                 ["html", "@rep:.: ", "all_whitespace"]])}
                     elif y < 0.32 and text not in ("", "eyecite"):
                         op["clean"] = g.choice([["all_whitespace"], ["inline_whitespace", "underscores"],
-                                                ["@tab_to_space", "all_whitespace"]])
+                                                ["@tab_to_space", "all_whitespace"],
+                                                ["@rep:,:;", "all_whitespace"], ["@rep:.: ", "all_whitespace"],
+                                                ["@rep:v.:vs.", "inline_whitespace"], ["@rep: at : @ "]])
                     elif y < 0.35 and text not in ("", "eyecite"):
                         # a call that raises: markup without the html step
                         op = {"op": "H1", "text": "", "markup": tg.markup(text),
